@@ -28,7 +28,7 @@ const OPTS: LifeOpts = LifeOpts {
     adversary: Some((350, 12, &TEN)),
     dup: true,
     generators: true,
-    hooks: false,
+    hooks: true,
     outputs: true, drop_outputs: true
 };
 
